@@ -762,6 +762,19 @@ func (cl *Client) EndTransaction(ctx context.Context, commit TransactionEndTry) 
 		cl.cfg.logger.Log(LogLevelDebug, "transaction ending, no group loaded; this must be a producer-only transaction, not consume-modify-produce EOS")
 	}
 
+	// A topic produced to for the first time publishes its partitions only
+	// at the very end of storePartitionsUpdate, after the records that
+	// waited on that load were released to be produced. Such a record can
+	// already be acknowledged, and its caller can already be here, before
+	// the partitions are visible in producer.topics: the scan below would
+	// then miss the partition and conclude nothing was produced, skipping
+	// the EndTxn (pre KIP-890p2, leaving the transaction open to be merged
+	// into the next one) or turning a commit into an abort (KIP-890p2).
+	// storePartitionsUpdate publishes before it releases unknownTopicsMu,
+	// so passing through the mutex orders us after any such store.
+	cl.producer.unknownTopicsMu.Lock()
+	cl.producer.unknownTopicsMu.Unlock() //nolint:staticcheck // empty critical section is the point: wait for an in-progress store
+
 	// After the flush, no records are being produced to, and we can set
 	// addedToTxn to false outside of any mutex.
 	for _, parts := range cl.producer.topics.load() {
